@@ -6,4 +6,9 @@ CHECKS = {
         "note": "Trusted: Python Fractions / NumPy; the reference 1/|x-y| integrator (self-consistency P<->Q exchanged is a coverage obligation). Duffy orders above 6 (quick) / 10 (thorough) are not swept.",
     },
 }
+CHECKS["C11"] = {
+    "technique": "invariant walker hooked on Grid.__init__ vs brute-force topology/geometry model; exhaustive sub-complex sweep",
+    "text": "Every Grid the workload constructs (including those built internally by refine, barycentric_refinement, union and grid_from_segments, seen through a post-condition on Grid.__init__) is walked against a brute-force model of edges, incidence tables, adjacency tables with dereferenced local indices, boundary flags and all geometric arrays; derived grids are checked for area, orientation, domain-index and nesting preservation by geometric parent search. Exhaustive over all 525 sub-complexes of three base meshes; sampled over mesh families, relabelings, dtypes, memory orders and random non-manifold soups.",
+    "note": "Trusted: the brute-force model in vlib. Held on the grids observed; soups are limited to <= 13 elements, families to <= 400 elements for derived grids.",
+}
 NOT_APPLICABLE = {}
